@@ -44,6 +44,23 @@ def compiled(ctx):
             for s, l in rows:
                 f.write(ROW % (s, l, max(l, 0), s, s))
         paths.append(p)
+    # key sets selected for their double-array LAYOUT: the generator searches random key sets for one where some node N
+    # (reached by a key prefix) and a byte b that is not a child of N have a value (leaf) unit in slot N.base ^ b whose low
+    # byte equals b - the layouts in which a walk that mishandles the leaf flag of a unit goes wrong
+    found = ctx.run_gen(["c04search", m, d, str(7 + ctx.seed), "400"])
+    for k, line in enumerate(found.splitlines()):
+        csv, path, b = line.split("\t")
+        name = "layout_value_unit_adjacent_%d" % k
+        rows = []
+        for r in open(csv, encoding="utf-8"):
+            c = r.rstrip("\n").split(",")
+            rows.append((c[0], int(c[1])))
+        sets[name] = rows
+        p2 = os.path.join(d, name + ".csv")
+        os.replace(csv, p2)
+        paths.append(p2)
+        if ctx.tier == "quick" and k == 0:
+            break
     out = ctx.run_gen(["c04", m] + paths)
     res = {}
     for line in out.splitlines():
